@@ -281,8 +281,24 @@ pub fn fork(kind: ForkKind, cfg_a: &Cfg, cfg_b: &Cfg, head_a: &[Op], head_b: &[O
     let tb = b.w.trace.clone().unwrap();
     let mut viol = None;
     if a.w.failed() || b.w.failed() {
-        // one branch tripped a per-endpoint monitor: that is the finding, under its own properties
+        // one branch tripped a per-endpoint monitor: that is the finding, under its own properties;
+        // a monitor tripped by the restored object during the continuation is C16's business too
+        // ("continues like the original would have", "duplicates ... are still suppressed")
         viol = a.w.viol.clone().or(b.w.viol.clone());
+        if kind == ForkKind::Crash && b.w.failed() {
+            let mut v = b.w.viol.clone().unwrap();
+            if !v.props.is_empty() && !v.props.contains(&"C16") {
+                v.props.push("C16");
+            }
+            viol = Some(v);
+        }
+        if kind == ForkKind::Version && a.w.failed() != b.w.failed() {
+            let mut v = viol.clone().unwrap();
+            if !v.props.is_empty() && !v.props.contains(&"C17") {
+                v.props.push("C17");
+            }
+            viol = Some(v);
+        }
         return ForkResult { viol, a, b };
     }
     if let Some((i, d)) = first_diff(&ta, &tb) {
